@@ -2,7 +2,7 @@
 """Regenerates MANIFEST.json from the table below (one entry per claimed property)."""
 import json
 props = [json.loads(l) for l in open('/verif/properties.jsonl')]
-FIXES = ["4919a31", "c4a424f", "4f698e4", "b6107c4", "70a6e6e"]
+FIXES = ["4919a31", "c4a424f", "4f698e4", "b6107c4", "70a6e6e", "df2f96d", "2f83e4a"]
 BROKER_NOTE = ("Trusted: TLC, the virtual-time loop/clock rebinding, the recorder's projection of DummyQueue. "
                "In-memory broker only so far (Redis/RabbitMQ need the fake servers, see DESIGN 9).")
 WORKER_NOTE = ("Trusted: TLC, virtual-time loop, recorder, scripted actors. In-memory broker; Redis/RabbitMQ not covered yet.")
@@ -18,6 +18,11 @@ CLAIMS = {
  "C06": dict(text="recur clause: after each finished iteration exactly one successor (broker conservation), counter 0, ttl clock restarted, now < due' <= now+P, due' >= scheduled(prev)+P, over 4-6 iterations with varying lateness/duration/outcomes", tech="TLA+ worker model + TLC; trace validation", design="6/C06", note=WORKER_NOTE + " cron recurrence not exercised (croniter not installed)."),
  "C09": dict(text="limit clause (actor bodies in progress <= tasks_limit at every body start) and bounded-liveness clause (every job executed by a deadline derived from durations) on scenarios with 1-3 queues sharing the limiter, bursts, uneven durations, failing and self-cancelling actors", tech="TLA+ worker model + TLC (RunningBound, Progress under fairness); trace validation", design="6/C09", note=WORKER_NOTE),
  "C10": dict(text="mlimit clause: actor executions started <= messages_limit, run() returns by itself, messages beyond M back in their queue, over M x backlog x durations x tasks_limit x queues", tech="TLA+ worker model + TLC (StartedBound); trace validation", design="6/C10", note=WORKER_NOTE),
+ "C08": dict(text="Bind.tla: binding of a payload to a signature as an operator; MC_Bind checks the statement's clauses on all well-formed signatures <= N parameters x payloads; for every such case the real converter (Basic, Pydantic, Default; one converter object per signature used for the whole payload sequence) + the real call is compared by TLC with Bind(sig, payload); TLC also checks that the harness enumerated exactly the specification's signature set", tech="TLA+ operator spec + TLC exhaustive enumeration; spec-vs-code case validation", design="6/C08", note="Exhaustive for <= 3 (quick) / <= 4 (thorough) parameters. Pydantic refuses *args/**kwargs at declaration (accepted outcome). Return-value round trip is sampled."),
+ "C13": dict(text="result clause of Trace_Worker: a result-bucket write only when results are enabled, carrying the outcome of the execution that just finished (success flag, encoded value / exception text+type, start<=finish, ttl; compared by the recorder), the latest one at quiescence; fault enumeration: each result-bucket call failing in turn must leave the run a behaviour of the same specification (disposition unchanged, worker alive)", tech="TLA+ worker model + TLC; trace validation with fault enumeration", design="6/C13", note=WORKER_NOTE),
+ "C16": dict(text="MessageApi.tla state machine (OneTerminal, AfterUse, StoreInOrder checked by TLC over all call sequences <= 4); every call sequence up to the bound executed on real Message objects obtained by iterating a queue in each category and on real MessageDependency objects inside actor_run, validated against Trace_MessageApi (refusals, broker calls, read-only flag, callback/result-store order, body stops)", tech="TLA+ state machine + TLC; exhaustive call-sequence trace validation", design="6/C16", note="Exhaustive for length <= 4 in the thorough tier; quick samples the longest sequences."),
+ "C18": dict(text="Deps.tla: value term / failure of a provider graph after overrides; MC_Deps sanity theorems on all 4-node graphs; generated graphs built from real Depends objects (sync providers in the real thread pool), resolved through _Processor.actor_run, received values compared by TLC with Expected(graph, overrides, deps)", tech="TLA+ operator spec + TLC; spec-vs-code case validation", design="6/C18", note="Graphs <= 3 nodes exhaustive-sampled in quick, <= 4 in thorough; real threads only for sync providers (order-insensitive assertions)."),
+ "C19": dict(text="Schedule.tla operators; TLC checks Monotone/InRange/OnGrid/Window/UntilWins/Overdue over the whole bounded domain, Apalache proves Window/OnGrid/Cadence for unbounded integers; every input of the domain evaluated on the real functions under a pinned clock (several unit scales, grid anchored at timestamp or at the scheduled time) and compared by TLC; large magnitudes sampled", tech="TLA+ operators + TLC exhaustive + Apalache (unbounded) ; spec-vs-code case validation", design="6/C19", note="The large-magnitude half (beyond 32-bit TLC integers) is sampling of the same formulas."),
 }
 checks = []
 for p in props:
